@@ -69,7 +69,17 @@ def _scale(args, k):
     return [x * k if (i > 0 and args[i - 1] == "--runs") else x for i, x in enumerate(args)]
 
 
-WALKS["thorough"] = {pid: [_scale(a, 6 if "--tick" in a else 25) for a in ws] for pid, ws in WALKS["quick"].items()}
+def _thorough(a):
+    if "--tick" in a:
+        return [_scale(a, 6)]
+    if int(a[a.index("--origins") + 1]) > 2:
+        # many-origin records are large (one observation row per origin): five campaigns of 5x instead of one of 25x,
+        # so that no single trace file outgrows the monitor's JSON reader
+        return [_scale(a, 5)] * 5
+    return [_scale(a, 25)]
+
+
+WALKS["thorough"] = {pid: [w for a in ws for w in _thorough(a)] for pid, ws in WALKS["quick"].items()}
 
 GEN = {"quick": dict(num=1200, depth=30), "thorough": dict(num=20000, depth=36)}
 
@@ -239,7 +249,10 @@ def run(pid, tier, seed, t0, asbuilt=None):
     # ---- 2. generate behaviours
     gconsts = dict(consts, MaxDial=max(3, consts["MaxDial"]), Faults="AllFaults" if pid in ("C02",) else consts["Faults"])
     gcfg = f"_{pid}_{tier}_gen.cfg"
-    g = GEN[tier]
+    g = dict(GEN[tier])
+    if consts.get("MaxTick", 0) > 0:
+        # every Tick of a replayed schedule is a real 120 ms sleep (std::time::Instant cannot be paused)
+        g["num"] = min(g["num"], 5000)
     write_cfg(os.path.join(vlib.SPEC, gcfg), gconsts, "", "", gen=dict(depth=g["depth"]))
     gen = vlib.tlc("MC_PoolGen.tla", gcfg, pid, workers=1, timeout=3400, simulate=g["num"], depth=g["depth"] + 1, seed=seed)
     os.remove(os.path.join(vlib.SPEC, gcfg))
